@@ -39,7 +39,7 @@ private:
 
     int push(Var &var)
     {
-      if (ptr >= 3) { return -1; }
+      if (ptr >= STACK_LEN) { return -1; }
       stack[ptr++] = var;
 
       return 0;
@@ -47,7 +47,7 @@ private:
 
     int push_front(Var &var)
     {
-      if (ptr >= 3) { return -1; }
+      if (ptr >= STACK_LEN) { return -1; }
 
       for (int n = ptr; n > 0; n--)
       {
@@ -83,6 +83,7 @@ private:
 
     int size()      { return ptr; }
     bool is_empty() { return ptr == 0; }
+    bool is_full()  { return ptr == STACK_LEN; }
 
     Var pop_first()
     {
@@ -133,7 +134,10 @@ private:
       }
     }
 
-    Var stack[3];
+    // One pending value per precedence level plus the one being read.
+    static const int STACK_LEN = 8;
+
+    Var stack[STACK_LEN];
     int ptr;
   };
 
@@ -146,7 +150,7 @@ private:
 
     void push(Operator &oper)
     {
-      assert(ptr < 2);
+      assert(ptr < STACK_LEN);
       stack[ptr++] = oper;
     }
 
@@ -176,8 +180,15 @@ private:
       return 0;
     }
 
+    int get_last_precedence()
+    {
+      assert(ptr > 0);
+      return stack[ptr - 1].precedence;
+    }
+
     int size()      { return ptr; }
     bool is_empty() { return ptr == 0; }
+    bool is_full()  { return ptr == STACK_LEN; }
 
     void dump()
     {
@@ -189,18 +200,22 @@ private:
     }
 
   private:
-    Operator stack[2];
+    // Pending operators are strictly increasing in precedence, so there
+    // is never more than one per precedence level.
+    static const int STACK_LEN = 8;
+
+    Operator stack[STACK_LEN];
     int ptr;
   };
 
   static bool need_symbol(int count)
   {
-    return count == 1 || count == 3;
+    return (count & 1) == 1;
   }
 
   static bool need_number(int count)
   {
-    return count == 0 || count == 2 || count == 4;
+    return (count & 1) == 0;
   }
 
   static int execute_stack(VarStack &var_stack, OperStack &oper_stack);
